@@ -40,6 +40,25 @@ CLAIMS = {
         "functions and are lifted to whole lines by the T2 correspondence, not by a single end-to-end theorem over rendered syntax.",
    technique="Lean 4 proofs (induction over text/tables, kernel evaluation of the full mnemonic x operand-kind matrix) + generated malformed families",
    design="8/C10"),
+ "C11": dict(
+   text="Theorems AL.Properties.C11.other_lines_identical (for EVERY text and any two option bytes the per-line result is the same "
+        "whenever the record handed to the encoder is outside three classes decided by optPlainB: (A) an immediate <= 0xffffffff moved "
+        "into a 64-bit register, (B) a memory operand whose index is a stack pointer without scale, (C) a memory operand with index and "
+        "no base), strict_keeps_destination (STRICT never changes an operand in encode_imm), smart_follows_spelling + narrowOk_spelling "
+        "(SMART is NASM unless the literal is hexadecimal with all 16 digits, then STRICT), swap_only_when_nasm / nobase_only_when_nasm, "
+        "swap_same_address / nobase_scale2_same_address / nobase_scale1_same_address (the rewritten operand denotes the same address for "
+        "every register valuation). In the model the option byte is a parameter of exactly its three readers, so lexing and byte emission "
+        "are option-free by construction; T2 ties that to the C code on every line under all 12 option bytes. Oracles on the "
+        "implementation: (a) lines outside the classes give identical results under all 12 bytes, (b) the guard is the documented "
+        "classification on constructed families, (c) mov r64, imm over 27 values x up to 10 spellings x 16 registers equals the "
+        "documented narrowed/kept bytes per mode, (d) [base+rsp/esp(+disp)] and [scale*index(+disp)] under 20 instruction templates "
+        "depend only on their bit, equal the literal encoding of the documented rewriting with the bit, have literal SIB fields without "
+        "it, and the lea address EXECUTED on the CPU equals the written one.",
+   note="The address-equality theorems are about the operand record (base, index, scale); that ModRM/SIB/displacement bytes denote that "
+        "record is checked by the executed-lea oracle and the literal-field decoder, not proved (it is the C02 decoder's subject). The "
+        "immediate width behind a memory destination is excluded from the whole-instruction rewrite comparison (a C02 matter).",
+   technique="Lean 4 non-interference proof (option byte as explicit parameter, frame lemmas over the encoder) + 12-option differential correspondence + byte-exact, decoded and executed oracles",
+   design="8/C11"),
  "C16": dict(
    text="Theorems AL.Properties.C16.case_insensitive / comment_irrelevant / leading_blanks / operand_blanks / skipped_lines / crlf "
         "(AL.Lemmas.filterGo_case, filterGo_comment, filterGo_deblank): for EVERY byte string, not only the corpora, the per-line "
